@@ -13,6 +13,9 @@ pub fn gen_case(fam: &str, r: &mut Rng, i: u64, p: &HashMap<String, String>) -> 
         "c12" => c12(r, i, p),
         "c11" => c11(r, i, p),
         "c14" => c14(r, i, p),
+        "c07" => c07(r, i, p),
+        "c08" => c08(r, i, p),
+        "c09" => c09(r, i, p),
         "c13" => c13(r, i, p),
         "c15" => c15(r, i, p),
         _ => vec![],
@@ -333,4 +336,74 @@ fn c14(r: &mut Rng, i: u64, p: &HashMap<String, String>) -> Vec<Value> {
         run(&html, w, cfg("rich", vec![]), "lines"),
         run(&html, w, cfg(sdeco, vec![]), "string"),
         run(&html0, w, cfg(sdeco, vec![]), "string")]})]
+}
+
+/// C09: random nestings of annotating elements inside paragraphs, lists, quotes, headings, table
+/// cells; rich lines route + rich string route.
+fn c09(r: &mut Rng, i: u64, p: &HashMap<String, String>) -> Vec<Value> {
+    let mut f = if r.chance(1, 3) { Feat::all() } else { Feat::notables() };
+    f.ids = r.chance(1, 6);
+    f.sup = r.chance(1, 3);
+    f.linky = r.chance(1, 3);
+    let mut g = G::new(r, f);
+    let body = g.flow(0);
+    let html = doc_html(&body);
+    let w = if r.chance(1, 2) { r.range(1, 25) } else { r.range(1, wmax(p, 100)) };
+    let mut ops = vec![];
+    if r.chance(1, 5) { ops.push(json!(["pad"])); }
+    if r.chance(1, 6) { ops.push(json!(["max_wrap", r.range(3, 30)])); }
+    if r.chance(1, 8) { ops.push(json!(["footnotes", true])); }
+    vec![json!({"id": id("c09", i), "runs": [run(&html, w, cfg("rich", ops.clone()), "lines"), run(&html, w, cfg("rich", ops), "string")]})]
+}
+
+/// C08: 0..40 links with unique texts anywhere in the block/table grammar; footnotes on and off.
+fn c08(r: &mut Rng, i: u64, p: &HashMap<String, String>) -> Vec<Value> {
+    let mut f = if r.chance(1, 3) { Feat::all() } else { Feat::notables() };
+    f.linky = true;
+    f.ids = r.chance(1, 8);
+    let mut g = G::new(r, f);
+    let body = g.flow(0);
+    let html = doc_html(&body);
+    let w = r.range(10, wmax(p, 120));
+    let deco = *r.pick(&["plain", "trivial", "rich", "plain_nd"]);
+    let mut base = vec![];
+    if r.chance(1, 6) { base.push(json!(["nolinkwrap"])); }
+    if r.chance(1, 6) { base.push(json!(["raw", true])); }
+    if r.chance(1, 6) { base.push(json!(["pad"])); }
+    let mut on = base.clone(); on.push(json!(["footnotes", true]));
+    let mut off = base; off.push(json!(["footnotes", false]));
+    vec![json!({"id": id("c08", i), "runs": [run(&html, w, cfg(deco, on), "string"), run(&html, w, cfg(deco, off), "string")]})]
+}
+
+/// C07: one block B (ul / ol(start) / blockquote / h1..h6 / dd) whose items hold random flow content
+/// (nested blocks included); auxiliary runs render each item's content stand-alone at w - prefix.
+fn c07(r: &mut Rng, i: u64, p: &HashMap<String, String>) -> Vec<Value> {
+    let mut f = Feat::notables();
+    f.links = false;        // footnote numbering is global, not compositional
+    f.pre = r.chance(1, 2);
+    let deco = *r.pick(&["plain", "rich", "plain_nd"]);
+    let kind = *r.pick(&["ul", "ol", "ol", "blockquote", "h", "dd"]);
+    let mut g = G::new(r, f);
+    let (body, items, pw, meta): (Vec<N>, Vec<Vec<N>>, u64, Value) = match kind {
+        "ul" => { let m = g.r.range(1, 6); let its: Vec<Vec<N>> = (0..m).map(|_| g.flow(1)).collect();
+                  (vec![N::el("ul", its.iter().map(|c| N::el("li", c.clone())).collect())], its, 2, json!({"kind": "ul"})) }
+        "ol" => { let m = g.r.range(1, 15);
+                  let starts: [i64; 14] = [1, -100, -1, 0, 9, 98, 999, 5, -12, 95, 100, -9, 1, 1];
+                  let st = *g.r.pick(&starts);
+                  let its: Vec<Vec<N>> = (0..m).map(|_| if g.r.chance(1, 5) { vec![] } else { g.flow(2) }).collect();
+                  let lis: Vec<N> = its.iter().map(|c| N::el("li", c.clone())).collect();
+                  let has_start = st != 1 || g.r.chance(1, 2);
+                  let ol = if has_start { N::ela("ol", vec![("start", format!("{}", st))], lis) } else { N::el("ol", lis) };
+                  let last = st + m as i64 - 1;
+                  let pw = format!("{}. ", st).len().max(format!("{}. ", last).len()) as u64;
+                  (vec![ol], its, pw, json!({"kind": "ol", "start": st})) }
+        "blockquote" => { let c = g.flow(1); (vec![N::el("blockquote", c.clone())], vec![c], 2, json!({"kind": "blockquote"})) }
+        "dd" => { let c = g.flow(1); (vec![N::el("dl", vec![N::el("dd", c.clone())])], vec![c], 2, json!({"kind": "dd"})) }
+        _ => { let l = g.r.range(1, 6); let c = g.inlines(1); (vec![N::el(&format!("h{}", l), c.clone())], vec![c], l + 1, json!({"kind": format!("h{}", l)})) }
+    };
+    if body.is_empty() { return vec![]; }
+    let w = r.range(pw + 2, wmax(p, 100));
+    let mut runs = vec![run(&doc_html(&body), w, cfg(deco, vec![]), "string")];
+    for it in &items { runs.push(run(&doc_html(it), w - pw, cfg(deco, vec![]), "string")); }
+    vec![json!({"id": id("c07", i), "meta": meta, "runs": runs})]
 }
